@@ -18,7 +18,7 @@ SITE = "src/Math/Evaluator*.cxx"
 def shrink(ck, exe, formula, pred):
     """delta-debug a formula on tokens while `pred(answer)` stays true on the implementation"""
     toks = [t for t in L.TOKEN_RE.findall(formula) if not t.isspace()]
-    budget = 60
+    budget = 40
     changed = True
     while changed and budget > 0:
         changed = False
@@ -140,6 +140,9 @@ def run(ck):
             samples.append("%s -> impl '%s' model '%s'" % (line[:100], a[:100], m[:100]))
         if a.startswith("CRASH"):
             disagreements += 1
+            ncrash_reported = len([k for k in reported if k.startswith("crash:")])
+            if ncrash_reported >= 2:
+                continue        # further crashes are counted, not minimised one by one
             small = shrink(ck, exe, f, lambda x: x.startswith("CRASH")) if kind != "rewrite" and line.startswith("P ") else f
             key = "crash:" + pattern(small)
             if key not in reported:
